@@ -151,7 +151,19 @@ func (ip *Interp) storeT(cell *Value, v Value) {
 }
 
 func (ip *Interp) load(p Ptr) Value {
+	if p.SymIdx != nil {
+		return ip.selectByIndex(p.SymIdx, p.N, func(i int) *Term { return p.Base[p.Idx+i].(*Term) })
+	}
 	return copyVal(*p.Cell)
+}
+
+// concPtr resolves a symbolic-index pointer to a concrete cell by forking.
+func (ip *Interp) concPtr(p Ptr) Ptr {
+	if p.SymIdx == nil {
+		return p
+	}
+	i := ip.concInt(p.SymIdx, "element pointer index")
+	return Ptr{Cell: &p.Base[p.Idx+i], Base: p.Base, Idx: p.Idx + i}
 }
 
 func (ip *Interp) constValue(c *ssa.Const) Value {
@@ -580,6 +592,9 @@ func (ip *Interp) visitInstr(fr *frame, instr ssa.Instruction) continuation {
 		addr := fr.get(instr.Addr).(Ptr)
 		if addr.Cell == nil {
 			ip.throw("nil", "nil pointer dereference (store)", instr)
+		}
+		if addr.SymIdx != nil {
+			addr = ip.concPtr(addr)
 		}
 		ip.storeT(addr.Cell, fr.get(instr.Val))
 	case *ssa.If:
